@@ -36,7 +36,14 @@ func H03_dv() {
 	vAssume(cm >= 1 && cm <= 1024)
 	LegacyChunkMode = cm
 	nDocs := 1 + vChoice("nDocs", vParam("maxDocs", 2))
-	docs, sp := vGenBatch(vDvCfg("", "d", nDocs))
+	cfg := vDvCfg("", "d", nDocs)
+	if vParam("dvSym", 0) == 1 {
+		// the doc-values option differs between the occurrences of field f (different documents, or two values of
+		// one document): the field has doc values as soon as one occurrence asks for them
+		cfg.fields[0].dvSym = true
+		cfg.fields[0].multi = true
+	}
+	docs, sp := vGenBatch(cfg)
 	var z ZapPlugin
 	if vBool("priorBuild") {
 		// the (pooled) builder has been used before, for a batch with doc values on every field
